@@ -148,7 +148,7 @@ def execute(case, tape):
 
 
 RUN_TIMEOUT_S = 120
-BUDGET = {"quick": (2400, 75), "thorough": (60000, 900)}
+BUDGET = {"quick": (6000, 75), "thorough": (120000, 1200)}
 REAL = ["pydcop.infrastructure.run.run_local_thread_dcop", "Orchestrator", "AgentsMgt",
         "OrchestratedAgent", "OrchestrationComputation", "Agent", "Messaging", "Discovery",
         "Directory", "InProcessCommunicationLayer", "pydcop.algorithms.dpop",
